@@ -272,6 +272,8 @@ pub struct PCfg {
     /// a lambda may read a captured variable inside an `if` arm (known finding: the VM caches
     /// the upvalue load of the first arm and reads an uninitialised register in the other)
     pub capture_in_branch: bool,
+    /// `if` expressions inside lambda bodies (same family of VM findings: closures + branches)
+    pub if_in_lambda: bool,
 }
 
 impl Default for PCfg {
@@ -306,6 +308,7 @@ impl Default for PCfg {
             proj_in_cond: true,
             capture_destructured: true,
             capture_in_branch: true,
+            if_in_lambda: true,
         }
     }
 }
@@ -513,7 +516,7 @@ impl<'a> PG<'a> {
             2,                                                   // 2 neg
             2,                                                   // 3 builtin 1
             1,                                                   // 4 builtin 2
-            3,                                                   // 5 if
+            if sc.in_lambda && !self.cfg.if_in_lambda { 0 } else { 3 }, // 5 if
             if self.cfg.block_operands || !sc.in_operand { 2 } else { 0 }, // 6 block
             if callees.is_empty() { 0 } else { 6 },              // 7 call
             if tup_vars.is_empty() || (sc.in_cond && !self.cfg.proj_in_cond) { 0 } else { 2 }, // 8 proj
@@ -745,7 +748,7 @@ impl<'a> PG<'a> {
         let vars = self.vars_of(sc, &ty);
         let callees: Vec<FnSig> = self.fns.iter().filter(|f| f.ret == ty && !f.maker && (sc.allow_state || !f.stateful) && (self.cfg.state_in_branches || !sc.in_branch || !f.stateful)).cloned().collect();
         let self_ok = sc.self_ty.as_ref() == Some(&ty);
-        let w = [6, if vars.is_empty() { 0 } else { 3 }, if callees.is_empty() { 0 } else { 4 }, if self.fuel > 0 && self.cfg.tuple_if { 1 } else { 0 }, if self_ok { 3 } else { 0 }, if self.fuel > 0 { 1 } else { 0 }];
+        let w = [6, if vars.is_empty() { 0 } else { 3 }, if callees.is_empty() { 0 } else { 4 }, if self.fuel > 0 && self.cfg.tuple_if && !(sc.in_lambda && !self.cfg.if_in_lambda) { 1 } else { 0 }, if self_ok { 3 } else { 0 }, if self.fuel > 0 { 1 } else { 0 }];
         match self.g.weighted(&w) {
             0 => {
                 self.feat.tuples += 1;
